@@ -24,3 +24,16 @@ PY
   v=$(grep -c "^VIOLATION" /tmp/benigncheck/$i.out); u=$(grep -c "^UNDECIDED" /tmp/benigncheck/$i.out)
   echo "$name: violations=$v undecided=$u $(grep -A1 '^VIOLATION' /tmp/benigncheck/$i.out | grep rule= | sort -u | head -3 | tr '\n' ' ') $(grep '^UNDECIDED' /tmp/benigncheck/$i.out | cut -c1-120 | head -2 | tr '\n' ' ')"
 done
+# benign seeds: seeded changes that a repo fix made behaviour-preserving
+for d in seeded/C*; do
+  id=$(basename $d)
+  python3 -c "
+import json,sys
+m=json.load(open('$d/meta.json'))
+sys.exit(0 if m.get('status')=='obsolete' and 'behaviour-preserving' in (m.get('why','')+m.get('needs_to_manifest','')) else 1)" || continue
+  git -C /repo apply /verif/$d/patch.diff 2>/dev/null || { echo "$id (benign seed): does not apply"; continue; }
+  bin/gmverif check -prop all -tier quick -repo /repo -verif /tmp/benigncheck > /tmp/benigncheck/$id.out 2>&1
+  git -C /repo checkout -- .
+  v=$(grep -c "^VIOLATION" /tmp/benigncheck/$id.out); u=$(grep -c "^UNDECIDED" /tmp/benigncheck/$id.out)
+  echo "$id (benign seed): violations=$v undecided=$u $(grep -A1 '^VIOLATION' /tmp/benigncheck/$id.out | grep rule= | sort -u | head -3 | tr '\n' ' ')"
+done
